@@ -22,7 +22,10 @@ META = {
             "then seeded structured strings (bracket runs, control+digit, quotes, UTF-8 incl. boundary code points, "
             "threshold lengths); a case is non-trivial when the written literal contains an escape or is a long bracket; "
             "distinct by input bytes",
-    "assumptions": ["Luau/Lua 5.1 escape rules are as written in Model/StringLit.v (unescape_from)"],
+    "assumptions": ["Luau/Lua 5.1 escape rules are as written in Model/StringLit.v (unescape_from)",
+                    "the reference reader treats backslash + CR LF inside a quoted string as malformed (Lua reads one line "
+                    "break) and skips a lone CR / LF CR after the opening long bracket as Lua 5.1 does: such source "
+                    "spellings are left out of the source-literal stream"],
 }
 
 PREAMBLE = """From DL Require Import Lib.Bytes Model.StringLit.
@@ -157,6 +160,47 @@ def run_segments(ctx):
     return model_mismatch
 
 
+STRPARSE_PREAMBLE = """From DL Require Import Lib.Bytes Model.StringLit.
+Open Scope N_scope.
+Open Scope string_scope.
+(* case = (literal text, value darklua reads or "ERR") *)
+Definition check_case (c : string * string) : bool :=
+  match decode_literal true (unhex (fst c)) with
+  | Some v => if String.eqb (snd c) "ERR" then false else bytes_eqb v (unhex (snd c))
+  | None => String.eqb (snd c) "ERR"
+  end.
+Definition diag_case (c : string * string) : string :=
+  match decode_literal true (unhex (fst c)) with
+  | Some v => "reference value " ++ tohex v
+  | None => "reference rejects the literal"
+  end.
+"""
+
+
+def run_strparse(ctx):
+    """source spellings of string literals: the value darklua's reader gives = the reference decoder's (Luau rules)"""
+    n = 300 if ctx.tier == "quick" else 4000
+    out = C.harness("dl-c13", ["strparse", "--seed", str(ctx.seed), "--n", str(n)])
+    cases, seen = [], set()
+    for line in out.splitlines():
+        parts = line.split()
+        if len(parts) != 2 or parts[0] in seen:
+            continue
+        seen.add(parts[0])
+        cases.append((len(cases), '(%s, %s)' % (C.coq_string(parts[0]), '"ERR"' if parts[1] == "ERR" else C.coq_string(parts[1])),
+                      parts[0], parts[1]))
+    bad = C.run_coq_cases(ctx.prop, STRPARSE_PREAMBLE, [(c[0], c[1]) for c in cases], chunk=400, tag="strparse")
+    crlf = sum(1 for c in cases if "0d0a" in c[2])
+    ctx.stream("string literals of the source: darklua's reader vs the Coq reference decoder", len(cases), crlf,
+               [{"literal": bytes.fromhex(c[2]).decode("latin-1"), "value_hex": c[3]} for c in cases[5:8]],
+               mismatches=len(bad))
+    for cid, diag in bad[:3]:
+        _, _, hlit, hval = cases[cid]
+        ctx.violation("darklua reads a string literal of the source as a different value than Lua/Luau do",
+                      {"literal_hex": hlit, "literal": bytes.fromhex(hlit).decode("latin-1"), "darklua_value_hex": hval,
+                       "diag": diag, "replay": "StringExpression::new(literal)"}, key="strparse:" + hlit)
+
+
 def run_numbers(ctx):
     n = 600 if ctx.tier == "quick" else 20000
     out = C.harness("dl-c13", ["numbers", "--seed", str(ctx.seed), "--n", str(n)])
@@ -209,6 +253,7 @@ def run(ctx):
     C.build_harness("dl-c13")
     proofs_ok = C.proof_gate(ctx, ["Model/NumberLit.vo"])
     run_numbers(ctx)
+    run_strparse(ctx)
     segment_mismatch = run_segments(ctx)
 
     n = 1500 if ctx.tier == "quick" else 20000
